@@ -239,7 +239,18 @@ func genC18(t *rapid.T) c18Case {
 			// command never opens is not an invalid input
 			b.recs["-r"] = []FaRec{ref}
 		}
-		b.extra = []string{"--dist-all", "5"}
+		b.extra = rapid.SampledFrom([][]string{{"--dist-all", "5"}, {"--size-total", "4"}, {"--dist-up", "2", "--dist-down", "2", "--dist-side", "3"},
+			{"--size-up", "2", "--size-down", "2", "--size-side", "1", "--size-same", "2"}, {"--dist-push", "2"}, {"--size-total", "6", "--dist-all", "3"}}).Draw(t, "toprankingMode")
+		if rapid.IntRange(0, 2).Draw(t, "thresholdTarget") == 0 {
+			b.extra = append(b.extra, "--threshold-target", strconv.Itoa(rapid.IntRange(0, 6).Draw(t, "thresholdTargetVal")))
+		}
+		if rapid.IntRange(0, 3).Draw(t, "thresholdPair") == 0 {
+			b.extra = append(b.extra, "--threshold-pair", rapid.SampledFrom([]string{"0.0", "0.5", "1.0"}).Draw(t, "thresholdPairVal"))
+		}
+		if rapid.IntRange(0, 3).Draw(t, "table") == 0 {
+			b.extra = append(b.extra, "--table")
+		}
+		L = len(u.Ref)
 	case "variants":
 		vc := genVarCase(t, "aa")
 		for vc.Form != "msa" || vc.Msa.RefAt < 0 {
@@ -378,6 +389,44 @@ func genC18(t *rapid.T) c18Case {
 				cands = append(cands, cand{"csv-not-updown-list", func() (string, bool) {
 					files[i].Content = "query,SNPs\nq0,A1T\n"
 					return secondary(i) + role + ":header", true
+				}})
+				cands = append(cands, cand{"csv-row-not-updown-list", func() (string, bool) {
+					// one row (first, middle, last) that `updown list` cannot have written
+					lines := strings.Split(strings.TrimSuffix(files[i].Content, "\n"), "\n")
+					if len(lines) < 2 {
+						return "", false
+					}
+					ri, lab := pickRecord(t, len(lines)-1)
+					f := strings.Split(lines[1+ri], ",")
+					if len(f) != 5 {
+						return "", false
+					}
+					// make the row look heavily ambiguous as well, so that filters on the counts see it as one to drop
+					heavy := rapid.Bool().Draw(t, "heavyRow")
+					if heavy {
+						f[2], f[4] = "1-"+strconv.Itoa(L), strconv.Itoa(L)
+					}
+					// (the SNPcount column is not among them: gofasta recomputes it from the SNP list and never reads it, so a
+					// wrong or non-numeric SNPcount violates nothing gofasta documents or checks)
+					switch rapid.IntRange(0, 4).Draw(t, "badRowKind") {
+					case 0:
+						f[1] = rapid.SampledFrom([]string{"CxT", "A", "A1", "12", "A0T|", "AxT|C5T"}).Draw(t, "badSNP")
+						f[3] = "1"
+					case 1:
+						f[2] = rapid.SampledFrom([]string{"1-x", "1-2-3", "x", "-", "2-"}).Draw(t, "badAmb")
+					case 2:
+						f = f[:4]
+					case 3:
+						f = append(f, "extra")
+					default:
+						f[4] = "lots"
+					}
+					lines[1+ri] = strings.Join(f, ",")
+					files[i].Content = strings.Join(lines, "\n") + "\n"
+					if heavy {
+						lab += "-heavy"
+					}
+					return secondary(i) + role + ":" + lab, true
 				}})
 				cands = append(cands, cand{"missing-file", func() (string, bool) {
 					files[i].Missing = true
